@@ -72,10 +72,14 @@ package config
 //@   ensures result#1 == nil ==> result != nil
 //@   callsite Merge
 //@     requires #C09.envfile-under-env arg0 == t.Env
+// C09: a context without dir runs in the directory taskctl was started in (the last fall-back of the
+// directory precedence); the definition's own dir is used unchanged otherwise
 //@ func buildContext
 //@   requires def != nil
 //@   modifies cdom, cval
 //@   ensures result#1 == nil ==> result != nil
+//@   callsite NewExecutionContext
+//@     requires #C09.context-dir-falls-back-to-the-start-directory arg1 == (def.Dir != "" ? def.Dir : cwd())
 //@ func buildWatcher
 //@   requires def != nil && cfg != nil
 //@   nomod
@@ -94,6 +98,8 @@ package config
 //@   modifies *
 //@   ensures err == nil ==> cfg != nil
 //@   ghostlocal included bool
+//@   callsite buildContext
+//@     requires #C09.context-dir-as-written-in-the-definition arg0.Dir == old(arg0.Dir)
 //@   callsite checkPipelineInclusion
 //@     requires #C18.whole-definition-checked arg0 == def.Pipelines
 //@     ghost included = result == nil
@@ -102,6 +108,7 @@ package config
 //@     assumepre emptyG(arg0) // every graph registered by the pre-registration loop is a distinct, still empty NewExecutionGraph() (not carried as an invariant yet)
 //@   loop 1 "range def.Contexts"
 //@     invariant #same def == def0 && lc == lc0 && def != nil && lc != nil && cfg != nil && cfg.Contexts != nil && cfg.Tasks != nil && cfg.Watchers != nil && cfg.Pipelines != nil && cfg.Variables != nil
+//@     invariant #C09.context-definitions-untouched def.Contexts == old(def.Contexts) && (forall k string :: (k in def.Contexts) && def.Contexts[k] != nil ==> def.Contexts[k] == old(def.Contexts[k]) && def.Contexts[k].Dir == old(def.Contexts[k].Dir))
 //@   loop 2 "range def.Tasks"
 //@     invariant #same def == def0 && lc == lc0 && def != nil && lc != nil && cfg != nil && cfg.Contexts != nil && cfg.Tasks != nil && cfg.Watchers != nil && cfg.Pipelines != nil && cfg.Variables != nil
 //@     invariant #C18.tasks-non-nil forall k string :: k in cfg.Tasks ==> cfg.Tasks[k] != nil
